@@ -570,7 +570,7 @@ class CallMixin:
                 return self.eval_contract_fn(c0, "value", dict(bound))
         if getattr(f.module, "is_spec", False) or self.spec_mode:
             return self.call_spec(f, args, kwargs)
-        c = self.registry.contract_for(f.qualname)
+        c = self.registry.contract_for_call(self, f.qualname, f, args, kwargs)
         top = self.frames[0].contract if self.frames else None
         if c is not None and top is not None and f.qualname in top.inline_calls:
             # the caller's contract asks for this callee's body (its precondition is still an
